@@ -22,11 +22,26 @@ factories over SHARED rotation objects / angle arrays within one case.
 Comparison: Stokes inputs are small integers; the implementation evaluates cos/sin in floating point, so
 values are compared within TOL64 = 1e-12 under x64 (TOL32 = 2e-5 in the float32 cases), the bound stated
 in each case as `tol`.
+
+DTYPE / MAGNITUDE cases (`dtype-*` keys, fields `dd` = data dtype, operand kinds jax32 / jax64 / np / np32 / py):
+every combination of x64 mode, Stokes dtype and angle-operand kind over a ladder of angle magnitudes 1e-6 .. 1e6 rad,
+each angle with exactly known (cos 2a, sin 2a) (a = atan(p / 10^k) resp. a Pythagorean / axis angle + t * pi with
+t up to 3e5), so the same Coq model term applies; the tolerance is DERIVED: the compute precision (TOL32 if the data,
+an angle array or the mode is float32, else TOL64) plus, per rotation operand, KA * max |a| with KA from the precision
+the ANGLE is known to (4e-6 float32, 2e-14 float64) - the data dtype does not excuse an angle error.  float64-data
+cases use dyadic inputs k + r / 2^30 that float32 cannot hold.
+
+DENSE forms (`dense` = 'eager' | 'jit'): op.as_matrix() as the operator's class resolves it - and, when that is an
+override, also the generic AbstractLinearOperator.as_matrix(op) - of the unreduced and of the reduced operator (and of
+.T for single operators) are compared entry by entry with the NumPy Mueller matrix laid out as furax flattens pytrees
+(component-major: all I, then all Q, ...), on shapes with several elements per component; matrix @ flatten(x) is also
+compared with the model's value.
 """
 from __future__ import annotations
 
 import functools
 import itertools
+import json
 import math
 from fractions import Fraction
 
@@ -35,6 +50,11 @@ from lib import PropertyCheck, clist
 
 TOL64 = 1e-12
 TOL32 = 2e-5
+# angle-precision term of the tolerance: an angle a known to eps * |a| gives cos 2a / sin 2a to 2 eps |a|; on Stokes values
+# of size <= 7 and with the rounding of a sum of two angles in reduce(): per rotation operand 4e-6 |a| (float32, eps/2 = 6e-8)
+# resp. 2e-14 |a| (float64, including the float64 evaluation of a = atan2(S, C) / 2 + k pi by the harness)
+KA32 = 4e-6
+KA64 = 2e-14
 STOKES_N = {'I': 1, 'QU': 2, 'IQU': 3, 'IQUV': 4}
 SIDX = {1: [0], 2: [1, 2], 3: [0, 1, 2], 4: [0, 1, 2, 3]}
 TAGS = {'R': 0, 'RT': 1, 'H': 2, 'P': 3}
@@ -75,12 +95,16 @@ def set_x64(flag: bool):
 # angles
 
 
-def angle_floats(arr):
-    """The float angles sent to furax: a = atan2(S, C) / 2 + turns * pi, shaped like the array."""
-    np = fx()['np']
+def angle_list(arr):
+    """The float64 angles of the case (pure Python): a = atan2(S, C) / 2 + turns * pi, flat."""
     turns = arr.get('turns') or [0] * len(arr['cs'])
-    vals = [math.atan2(sn / sd, cn / cd) / 2 + t * math.pi for (cn, cd, sn, sd), t in zip(arr['cs'], turns)]
-    return np.array(vals, dtype=np.float64).reshape(tuple(arr['shape']))
+    return [math.atan2(sn / sd, cn / cd) / 2 + t * math.pi for (cn, cd, sn, sd), t in zip(arr['cs'], turns)]
+
+
+def angle_floats(arr):
+    """The float angles sent to furax, shaped like the array (float64; rounded to the operand dtype in angle_object)."""
+    np = fx()['np']
+    return np.array(angle_list(arr), dtype=np.float64).reshape(tuple(arr['shape']))
 
 
 def jangles(arr, x64):
@@ -88,15 +112,32 @@ def jangles(arr, x64):
     return m['jnp'].asarray(angle_floats(arr), dtype=m['jnp'].float64 if x64 else m['jnp'].float32)
 
 
+EFF32_AK = ('jax32', 'np32')
+
+
+def eff32(ak, x64):
+    """Is the angle known to float32 precision only?  Without x64 every jnp computation is float32 (NumPy float64
+    operands and Python floats are rounded when they enter jnp.cos / jnp.sin); with x64 only float32 ARRAYS are."""
+    return (not x64) or ak in EFF32_AK
+
+
 def angle_object(arr, ak, x64):
-    """The angle operand handed to furax: 'jax' array (float64 / float32 with the mode), 'np' a fresh
-    writable NumPy float64 array, 'py' a Python float (scalar shape only)."""
-    np = fx()['np']
+    """The angle operand handed to furax: 'jax' array of the mode's default float (float64 / float32), 'jax32' /
+    'jax64' a jax array of that dtype whatever the DATA dtype, 'np' / 'np32' a fresh writable NumPy float64 / float32
+    array, 'py' a Python float (scalar shape only)."""
+    m = fx()
+    np, jnp = m['np'], m['jnp']
     if ak == 'jax':
         return jangles(arr, x64)
     a = angle_floats(arr)
+    if ak == 'jax32':
+        return jnp.asarray(a, dtype=jnp.float32)
+    if ak == 'jax64':
+        return jnp.asarray(a, dtype=jnp.float64 if x64 else jnp.float32)
     if ak == 'np':
         return np.array(a, dtype=np.float64)
+    if ak == 'np32':
+        return np.array(a, dtype=np.float32)
     if ak == 'py':
         assert a.shape == ()
         return float(a)
@@ -124,24 +165,46 @@ def op_coq(d) -> str:
     return '(PHwp _)' if t == 'H' else '(PPol _)'
 
 
-def x_coq(x) -> str:
-    return '(zstokes ' + clist(x, lambda l: clist(l, lambda v: f'({int(v)})%Z')) + ')'
+def x_coq(x, xden=1) -> str:
+    """Stokes input of the model: integers, or (dyadic data) the exact rationals x / xden."""
+    if xden == 1:
+        return '(zstokes ' + clist(x, lambda l: clist(l, lambda v: f'({int(v)})%Z')) + ')'
+    leaf = f'(fun z : Z => Q2Qc (Qmake z {int(xden)}%positive))'
+    return f'(mk (map (map {leaf}) ' + clist(x, lambda l: clist(l, lambda v: f'({int(v)})%Z')) + '))'
+
+
+def x_values(case):
+    """The Stokes component values of the case as floats (exact: integers over a power of two)."""
+    den = case.get('xden', 1)
+    return [[v / den for v in l] for l in case['x']]
 
 
 # ----------------------------------------------------------------------------------------------
 # the real code
 
 
-def structure(stokes, shape, x64):
+def data_dtype(case_or_x64, dd=None):
+    """dtype of the Stokes components: `dd` = 'f32' / 'f64' when the case says so, else the mode's default."""
+    jnp = fx()['jnp']
+    if isinstance(case_or_x64, dict):
+        dd = case_or_x64.get('dd')
+        x64 = case_or_x64.get('x64', True)
+    else:
+        x64 = case_or_x64
+    if not x64 or dd == 'f32':
+        return jnp.float32
+    return jnp.float64
+
+
+def structure(stokes, shape, x64, dd=None):
     m = fx()
-    dt = m['jnp'].float64 if x64 else m['jnp'].float32
-    return m['Stokes'].class_for(stokes).structure_for(tuple(shape), dt)
+    return m['Stokes'].class_for(stokes).structure_for(tuple(shape), data_dtype(x64, dd))
 
 
-def stokes_value(stokes, shape, x, x64):
+def stokes_value(stokes, shape, x, x64, dd=None):
     m = fx()
     np, jnp = m['np'], m['jnp']
-    dt = jnp.float64 if x64 else jnp.float32
+    dt = data_dtype(x64, dd)
     cls = m['Stokes'].class_for(stokes)
     return cls(*[jnp.asarray(np.array(l, dtype=np.float64).reshape(tuple(shape)), dtype=dt) for l in x])
 
@@ -166,6 +229,75 @@ def try_value(f):
         return None
 
 
+def matrix_obs(f, mode):
+    """The dense matrix returned by f() as a list of rows of floats, or None (with the exception's name).
+    mode 'jit': called as is (the generic as_matrix compiles one fori_loop per input leaf, 0.3 - 0.7 s);
+    mode 'eager': called under jax.disable_jit() - the same Python code of furax, the loop primitive run step by step."""
+    m = fx()
+    np, jax = m['np'], m['jax']
+    try:
+        if mode == 'jit':
+            a = f()
+        else:
+            with jax.disable_jit():
+                a = f()
+        a = np.asarray(a, dtype=np.float64)
+        if a.ndim != 2:
+            return None, f'ndim {a.ndim}'
+        return [[float(v) for v in row] for row in a.tolist()], None
+    except BaseException as e:
+        if isinstance(e, (KeyboardInterrupt, SystemExit)):
+            raise
+        return None, type(e).__name__
+
+
+def pack_matrix(rows):
+    """Matrices travel as one JSON string (repr floats round-trip exactly; lib.canon leaves strings alone)."""
+    return None if rows is None else json.dumps(rows)
+
+
+def unpack_matrix(a):
+    return json.loads(a) if isinstance(a, str) else a
+
+
+def dense_times(mat, xvals, like):
+    """mat @ flatten(x) (x flattened leaf after leaf, as furax does), computed in float64 by the harness and laid out
+    like the value observation `like` of mv(x): the tie of the dense form to the model's value on x."""
+    np = fx()['np']
+    if mat is None or like is None:
+        return None
+    a = np.array(mat, dtype=np.float64)
+    v = np.array([t for comp in xvals for t in comp], dtype=np.float64)
+    if a.ndim != 2 or a.shape[1] != v.size:
+        return None
+    y = a @ v
+    ncomp = len(like[1])
+    if ncomp == 0 or y.size % ncomp:
+        return None
+    return [like[0], [[float(t) for t in part.tolist()] for part in np.split(y, ncomp)]]
+
+
+def dense_obs(op, mode, xvals, like, prefix=''):
+    """op.as_matrix() as the class resolves it, and - when the resolved method is an override - also the generic
+    AbstractLinearOperator.as_matrix(op) that probes mv with every basis vector (when it is not an override the two are
+    the same function and the generic one is not run twice)."""
+    m = fx()
+    core = m['core']
+    out = {}
+    mat, err = matrix_obs(op.as_matrix, mode)
+    out[prefix + 'dense'] = pack_matrix(mat)
+    if err:
+        out[prefix + 'dense_error'] = err
+    generic = core.AbstractLinearOperator.as_matrix
+    if getattr(type(op), 'as_matrix', None) is not generic:
+        gmat, gerr = matrix_obs(lambda: generic(op), mode)
+        out[prefix + 'gdense'] = pack_matrix(gmat)
+        if gerr:
+            out[prefix + 'gdense_error'] = gerr
+    out[prefix + 'dense_x'] = dense_times(mat, xvals, like)
+    return out
+
+
 class World:
     """The live objects of one case: caller-owned angle operands by `aid`, QURotationOperator objects by
     `id`, labels of objects for the skeletons, and the bit snapshots taken when each object was made."""
@@ -173,7 +305,7 @@ class World:
     def __init__(self, case):
         self.case = case
         self.x64 = case.get('x64', True)
-        self.st = structure(case['stokes'], case['shape'], self.x64)
+        self.st = structure(case['stokes'], case['shape'], self.x64, case.get('dd'))
         self.arrs: dict = {}
         self.objs: dict = {}
         self.ids: dict = {}
@@ -236,8 +368,7 @@ def build_step(step, w, k):
         if via == 'rmatmul':  # a @ (b @ (c @ d))
             return functools.reduce(lambda acc, o: o @ acc, reversed(ops[:-1]), ops[-1])
         raise ValueError(via)
-    jnp = m['jnp']
-    dt = jnp.float64 if w.x64 else jnp.float32
+    dt = data_dtype(case)
     ang = None if step['ang'] is None else w.array(step.get('aid', 1), step['ang'], step.get('ak', 'jax'))
     which = step['which']
     shape = tuple(case['shape'])
@@ -309,8 +440,11 @@ def case_steps(case):
 
 def observe_steps(case, x):
     """All steps are built and evaluated first, then each is reduced (in order), then every unreduced
-    operator is evaluated AGAIN, reduced a second time, and the first reduced operator re-evaluated."""
+    operator is evaluated AGAIN, reduced a second time, and the first reduced operator re-evaluated.
+    Cases flagged `dense` also observe the dense forms of the unreduced and of the reduced operator."""
     w = World(case)
+    dense = case.get('dense')
+    xvals = x_values(case)
     steps = case_steps(case)
     ops = []
     res = [{} for _ in steps]
@@ -326,6 +460,10 @@ def observe_steps(case, x):
     for r, op in zip(res, ops):
         r['expr'] = None if op is None else skeleton(op, ids)
         r['before'] = try_value(lambda: op.mv(x))
+        if dense:
+            r['dense_x'] = r['rdense_x'] = None
+        if dense and op is not None and r['before'] is not None:
+            r.update(dense_obs(op, dense, xvals, r['before']))
     reds = []
     for r, op in zip(res, ops):
         red, err = (None, 'not built') if op is None else try_reduce(op)
@@ -334,6 +472,8 @@ def observe_steps(case, x):
         r['after'] = None if red is None else try_value(lambda: red.mv(x))
         if err:
             r['reduce_error'] = err
+        if dense and red is not None and r['after'] is not None:
+            r.update(dense_obs(red, dense, xvals, r['after'], prefix='r'))
     for r, op, red in zip(res, ops, reds):
         r['again'] = try_value(lambda: op.mv(x))
         r['expr_again'] = None if op is None else skeleton(op, ids)
@@ -351,7 +491,7 @@ def run_case(case):
     x64 = case.get('x64', True)
     set_x64(x64)
     kind = case['kind']
-    x = stokes_value(case['stokes'], case['shape'], case['x'], x64)
+    x = stokes_value(case['stokes'], case['shape'], x_values(case), x64, case.get('dd'))
     if kind == 'mv':
         w = World(case)
         (op,) = build_ops(case['ops'], w)
@@ -364,6 +504,14 @@ def run_case(case):
         if case['ops'][0]['t'] == 'H':
             obs['t'] = try_value(lambda: op.T.mv(x))
         obs['y_again'] = try_value(lambda: op.mv(x))
+        if case.get('dense'):
+            obs['dense_x'] = None
+        if case.get('dense') and obs['y'] is not None:
+            obs.update(dense_obs(op, case['dense'], x_values(case), obs['y']))
+            mat, err = matrix_obs(lambda: op.T.as_matrix(), case['dense'])
+            obs['tdense'] = pack_matrix(mat)
+            if err:
+                obs['tdense_error'] = err
         obs['mutated'] = w.mutated()
         return obs
     if kind in ('chain', 'factory'):
@@ -429,6 +577,63 @@ def np_expected(ops, stokes, shape, x):
     return [n, [[float(t) for t in v[..., j].ravel().tolist()] for j in rows]]
 
 
+def np_dense(ops, stokes, shape):
+    """Dense matrix of the chain in furax's layout - pytree leaves flattened one after the other, i.e.
+    COMPONENT-MAJOR: row (i, p) = i * S + p for output component i and position p of the S = prod(shape) positions,
+    column (j, p) likewise; entry [(i, p), (j, p')] = delta(p, p') * (product of the restricted Mueller matrices at
+    p)[i, j].  The polariser's output is one leaf (rows p).  None when the chain is not composable."""
+    np = fx()['np']
+    if any(d['t'] == 'P' for d in ops[1:]):
+        return None
+    idx = SIDX[STOKES_N[stokes]]
+    sh = tuple(shape)
+    S = prod(sh)
+    M = np.broadcast_to(np.eye(4), sh + (4, 4))
+    keep = np.zeros((4, 4))
+    keep[idx, idx] = 1  # projector on the present components
+    rows = idx
+    M = keep @ M
+    for d in reversed(ops):
+        A = np_matrix(d, shape)
+        if d['t'] == 'P':
+            M = A @ M  # shape + (1, 4)
+            rows = [0]
+        else:
+            M = keep @ A @ M
+    M = M.reshape((S,) + M.shape[-2:])
+    out = np.zeros((len(rows) * S, len(idx) * S))
+    for i, ri in enumerate(rows):
+        for j, cj in enumerate(idx):
+            for p in range(S):
+                out[i * S + p, j * S + p] = M[p, ri, cj]
+    return out
+
+
+def close_matrix(a, b, tol):
+    """a: observed list of rows (or None), b: NumPy reference."""
+    np = fx()['np']
+    if a is None or b is None:
+        return a is None and b is None
+    a = np.array(unpack_matrix(a), dtype=np.float64)
+    if a.shape != b.shape:
+        return False
+    return bool(np.all(np.abs(a - b) <= tol))
+
+
+def matrix_diff(a, b):
+    """First few entries where the observed matrix differs most from the reference."""
+    np = fx()['np']
+    if a is None:
+        return 'no matrix'
+    a = np.array(unpack_matrix(a), dtype=np.float64)
+    if a.shape != b.shape:
+        return f'shape {list(a.shape)}, expected {list(b.shape)}'
+    d = np.abs(a - b)
+    worst = np.dstack(np.unravel_index(np.argsort(-d, axis=None)[:4], d.shape))[0]
+    return 'largest differences at [row, col] (got, expected): ' + ', '.join(
+        f'[{int(i)}, {int(j)}] ({a[i, j]:.6g}, {b[i, j]:.6g})' for i, j in worst if d[i, j] > 0)
+
+
 # ----------------------------------------------------------------------------------------------
 # comparison with tolerance
 
@@ -492,22 +697,28 @@ def dec_ops(v):
 
 STRUCT_KEYS = ('expr', 'expr_again', 'reduced', 'reduced2')
 ERROR_KEYS = ('reduce_error', 'reduce_error2', 'build_error')
+# the full dense matrices are judged by the oracle (NumPy reference); the model sees them through dense_x = matrix @ x
+MATRIX_KEYS = ('dense', 'gdense', 'rdense', 'rgdense', 'tdense', 'dense_error', 'gdense_error', 'rdense_error',
+               'rgdense_error', 'tdense_error')
 
 
-def dec_step(v, step):
+def dec_step(v, step, dense=None):
     """(map show_op l, x_observe sh l x) -> the observation of one step; the model is pure, so every
     repeated evaluation of the implementation is compared with the model's single value.  Steps built with
-    `@` (whose identity shortcuts are not in the model) are compared on their values only."""
+    `@` (whose identity shortcuts are not in the model) are compared on their values only.  In `dense` cases the
+    implementation's as_matrix() applied (by the harness) to x must also be the model's value."""
     created, (b, r, a) = v
     e = [dec_op(o) for o in created]
     B, R, A = dec_value(b), dec_ops(r), dec_value(a)
     d = {'expr': e, 'expr_again': e, 'before': B, 'again': B, 'reduced': R, 'reduced2': R,
          'after': A, 'after2': A, 'after1_again': A}
+    if dense:
+        d.update(dense_x=B, rdense_x=A)
     return strip_step(d, step)
 
 
 def strip_step(d, step):
-    drop = ERROR_KEYS + (STRUCT_KEYS if step.get('via', 'list') != 'list' else ())
+    drop = ERROR_KEYS + MATRIX_KEYS + (STRUCT_KEYS if step.get('via', 'list') != 'list' else ())
     return {k: v for k, v in d.items() if k not in drop}
 
 
@@ -595,6 +806,16 @@ class Check(PropertyCheck):
     trusted = [
         'floating point modelled by exact rational arithmetic: jnp.cos(2a)/jnp.sin(2a) are compared with the exact '
         '(cos 2a, sin 2a) of the model within 1e-12 (x64; 2e-5 in float32) on integer Stokes inputs',
+        'dtypes are not in the model: the dtype / magnitude cases (x64 mode x Stokes dtype x angle operand kind jax32 / jax64 / '
+        'np / np32 / Python float x |a| = 1e-6 .. 1e6 rad) use the same exact model term and NumPy float64 reference with a '
+        'tolerance derived in the harness: TOL32 if anything (data, an angle array, the mode) is float32 else TOL64, plus per '
+        'rotation operand 4e-6 |a| (angle known to float32) or 2e-14 |a| (float64); float32-known angles stop at 1e3 rad. '
+        'A Python float angle is weakly typed: next to a float32 angle array in the same chain QURotationRule adds them in '
+        'float32 (jax and NumPy >= 2 semantics), so there it is counted as known to float32',
+        'dense forms: as_matrix() results are judged by the harness against a NumPy block matrix in component-major (pytree leaf) '
+        'order and tied to the model only through matrix @ flatten(x) = the model value on x; most are obtained under '
+        'jax.disable_jit() (the same furax code with lax.fori_loop run step by step), one in 30 through the jitted path; when '
+        'type(op).as_matrix is the generic AbstractLinearOperator.as_matrix it is run once (C04 checks the generic one against mv)',
         'jnp broadcasting of `x.q * cos(2 * angles)` and of `left.angles + right.angles` as specified by '
         'bc / bshape in Model/Mueller.v (right-aligned axes, extent-1 axes stretched); angle arrays are '
         'assumed to broadcast TO the component shape of in_structure (larger angle arrays enlarge the output '
@@ -640,6 +861,104 @@ class Check(PropertyCheck):
         if 'x' not in c:
             c['x'] = self.rand_x(STOKES_N[stokes], prod(shape))
         return c
+
+    # -- dtype / magnitude cases -----------------------------------------------------------------
+    def mag_arr(self, ashape, decade, axis=False):
+        """Angle array whose elements have |a| ~ 10^decade, each with EXACTLY known (cos 2a, sin 2a):
+        decade <= -1: a = atan(p / 10^-decade), p = +-1..9 (tangent half-angle parametrisation of the doubled angle);
+        decade == 0: the Pythagorean / axis angles; decade >= 1: those plus t * pi with |t| ~ 10^decade / pi."""
+        rng = self.rng
+        n = prod(ashape)
+        cs, turns = [], []
+        for _ in range(n):
+            if decade <= -1:
+                p_, q_ = rng.choice((-1, 1)) * rng.randint(1, 9), 10 ** (-decade)
+                cs.append([q_ * q_ - p_ * p_, q_ * q_ + p_ * p_, 2 * p_ * q_, q_ * q_ + p_ * p_])
+                turns.append(0)
+            else:
+                cs.append(list(rng.choice(AXIS if axis else PYTH)))
+                t = 0 if decade == 0 else max(1, round(10 ** decade * rng.uniform(0.3, 0.99) / math.pi))
+                turns.append(rng.choice((-1, 1)) * t)
+        return {'shape': list(ashape), 'cs': cs, 'turns': turns}
+
+    def derive_tol(self, case):
+        """Tolerance from the precision of the data and of every angle operand: TOL32 when anything is computed in
+        float32 (data, an angle array, or the mode), else TOL64, plus per rotation operand KA * max |a|."""
+        x64 = case['x64']
+        any32 = (not x64) or case.get('dd') == 'f32'
+        ang = 0.0
+        for st in case_steps(case) if case['kind'] != 'mv' else [{'ops': case['ops']}]:
+            rots = [(d.get('ak', st.get('ak', 'jax')), d['ang']) for d in step_ops(st) if d['t'] in ('R', 'RT')]
+            # a Python float is WEAKLY typed: added to a float32 array by QURotationRule (left.angles + right.angles) the sum is
+            # float32 (jax and NumPy >= 2 alike), so next to a float32 operand it is known to float32 only
+            weak32 = any(eff32(ak, x64) for ak, _ in rots)
+            for ak, arr in rots:
+                e32 = eff32(ak, x64) or (ak == 'py' and weak32)
+                any32 = any32 or e32
+                ang += (KA32 if e32 else KA64) * max(abs(v) for v in angle_list(arr))
+        return (TOL32 if any32 else TOL64) + ang
+
+    def dtype_cases(self, quick):
+        """Blind spot closed after seeded mutants round 2: angle dtype x data dtype x x64 mode x angle MAGNITUDE.
+        For every mode, data dtype and angle-operand kind, a ladder of magnitudes 1e-6 .. 1e6 rad (operands known to
+        float32 only: .. 1e3, beyond which the angle's own precision says nothing about cos 2a): single R / R.T, the hwp and
+        pol factories, and a 2-3 operand chain whose other rotation has an independently drawn kind and magnitude."""
+        rng = self.rng
+        out = []
+        kinds = ['QU', 'IQU', 'IQUV']
+        chains = [('R', 'R'), ('RT', 'R'), ('R', 'RT'), ('RT', 'RT'), ('R', 'H'), ('H', 'RT'), ('P', 'R'), ('P', 'RT', 'H'),
+                  ('R', 'H', 'R'), ('RT', 'H', 'R'), ('P', 'R', 'R'), ('R', 'RT', 'H')]
+        n = 0
+        for x64 in (True, False):
+            aks = ('jax64', 'jax32', 'np', 'np32', 'py') if x64 else ('jax', 'np', 'np32', 'py')
+            for dd in (('f32', 'f64') if x64 else ('f32',)):
+                for ak in aks:
+                    top = 3 if eff32(ak, x64) else 6
+                    decades = list(range(-6, top + 1)) + ([] if quick or top == 3 else [8])
+                    for dec in decades:
+                        def operand(ak=ak, dec=dec, shape=(3,)):
+                            ashape = () if ak == 'py' else rng.choice(SHAPES[shape])
+                            return ak, self.mag_arr(ashape, dec, axis=(rng.random() < 0.3))
+
+                        def other(shape=(3,)):
+                            ak2 = rng.choice(aks)
+                            d2 = rng.randint(-6, 3 if eff32(ak2, x64) else 6)
+                            return operand(ak2, d2, shape)
+
+                        n += 1  # the rung counter
+                        common = dict(x64=x64, dd=dd)
+                        if dd == 'f64' and x64 and (n % 2 or not quick):
+                            common['xden'] = 2 ** 30  # dyadic data that float32 cannot hold
+                        # quick: R / R.T and hwp / pol alternate along the ladder; thorough: all four at every rung
+                        for t in (('R', 'RT')[n % 2],) if quick else ('R', 'RT'):
+                            stokes = kinds[n % 3]
+                            a, arr = operand()
+                            c = self.mk_case('mv', stokes, (3,), ops=[{'t': t, 'id': 1, 'ak': a, 'ang': arr}], key=f'dtype-mv:{t}', **common)
+                            out.append(c)
+                        for which in (('hwp', 'pol')[(n // 2) % 2],) if quick else ('hwp', 'pol'):
+                            stokes = kinds[(n + 1) % 3]
+                            shape = (3,) if n % 3 else (2, 3)
+                            a, arr = operand(shape=shape)
+                            out.append(self.mk_case('factory', stokes, shape, which=which, ang=arr, ak=a, key=f'dtype-factory:{which}', **common))
+                        pat = chains[n % len(chains)]
+                        ops = []
+                        picks = [operand() if i == 0 else other() for i in range(sum(t in ('R', 'RT') for t in pat))]
+                        if any(eff32(a, x64) for a, _ in picks):
+                            # next to a float32 array a Python float is float32 too (weak type): keep it below 1e3 rad as well
+                            picks = [operand(a, min(dec, rng.randint(-6, 3)), (3,)) if a == 'py' else (a, arr) for a, arr in picks]
+                        for t in pat:
+                            if t in ('R', 'RT'):
+                                a, arr = picks.pop(0)
+                                oid = sum(1 for d in ops if 'id' in d) + 1
+                                ops.append({'t': t, 'id': oid, 'aid': oid, 'ak': a, 'ang': arr})
+                            else:
+                                ops.append({'t': t})
+                        out.append(self.mk_case('chain', kinds[(n + 2) % 3], (3,), ops=ops, pattern=','.join(pat), key='dtype-chain:' + ','.join(pat), **common))
+        for c in out:
+            if 'xden' in c:
+                c['x'] = [[v * c['xden'] + self.rng.randint(-2 ** 10, 2 ** 10) for v in l] for l in c['x']]
+            c['tol'] = self.derive_tol(c)
+        return out
 
     def pick_ak(self, ashape, akp):
         """How the angle operand is given to furax: akp 'jax' / 'np' / 'py' fixed ('py' only for scalars),
@@ -871,6 +1190,34 @@ class Check(PropertyCheck):
             stokes = rng.choice(kinds) if quick else None
             for st in ([stokes] if stokes else kinds):
                 cases.append(self.chain_case(pat, st, (2, 3), 'mix', x64=False, key='f32:' + ','.join(pat)))
+        # -- F. angle dtype x data dtype x x64 mode x angle magnitude (1e-6 .. 1e6 rad) ------------------
+        cases += self.dtype_cases(quick)
+
+        # -- G. dense forms: op.as_matrix() (and the generic one when the class overrides it), of the unreduced and of
+        # the reduced operator, against the Mueller matrix in component-major order: every bare HWP / polariser, a quarter
+        # of the single rotations and of the factories, half of the 1-operand chains, a fixed fraction of the longer chains
+        # and of the dtype cases; one in 30 through the jitted path (0.3 - 1.2 s each), the others under jax.disable_jit()
+        # (same furax code, the fori_loop of the generic as_matrix run step by step: 20 - 400 ms).
+        nd = 0
+        for k, c in enumerate(cases):
+            kind, key = c['kind'], str(c.get('key', ''))
+            if kind == 'seq' or key.startswith('noncomposable'):
+                continue
+            if key.startswith('dtype-'):
+                every = 4
+            elif kind == 'mv':
+                every = 1 if c['ops'][0]['t'] in ('H', 'P') else 4
+            elif kind == 'factory':
+                every = 1 if c['ang'] is None else 4
+            else:
+                n = len(c['ops'])
+                every = 2 if n == 1 else (4 if n == 2 else (5 if key.startswith('same') else (12 if n == 3 else 30)))
+            if not quick:
+                every = max(1, every // 2)
+            if int(lib.case_id(c), 16) % every:  # a fixed pseudo-random fraction (no aliasing with the generators' loops)
+                continue
+            nd += 1
+            c['dense'] = 'jit' if nd % 30 == 0 else 'eager'
         # group the float32 cases at the end so that each worker toggles the mode rarely
         cases.sort(key=lambda c: not c['x64'])
         return cases
@@ -883,7 +1230,7 @@ class Check(PropertyCheck):
 
     def step_term(self, case, step):
         sh = clist(case['shape'], lib.cnat)
-        x = x_coq(case['x'])
+        x = x_coq(case['x'], case.get('xden', 1))
         if 'ops' in step:
             l = clist(step['ops'], op_coq)
         else:
@@ -899,7 +1246,7 @@ class Check(PropertyCheck):
 
     def model_term(self, case):
         sh = clist(case['shape'], lib.cnat)
-        x = x_coq(case['x'])
+        x = x_coq(case['x'], case.get('xden', 1))
         kind = case['kind']
         if kind == 'mv':
             op = op_coq(case['ops'][0])
@@ -918,20 +1265,24 @@ class Check(PropertyCheck):
             y, yt = v
             t = case['ops'][0]['t']
             obs = {'y': dec_value(y), 'y_again': dec_value(y), 'mutated': []}
+            if case.get('dense'):
+                obs['dense_x'] = dec_value(y)
             if t == 'R':
                 obs.update(tt=dec_value(y), inv=dec_value(yt), t=dec_value(yt))
             if t == 'H':
                 obs['t'] = dec_value(y)  # HWPOperator is @diagonal: .T is the operator itself
         elif kind in ('chain', 'factory'):
-            obs = dec_step(v[0], case_steps(case)[0])
+            obs = dec_step(v[0], case_steps(case)[0], case.get('dense'))
             obs['mutated'] = []
         else:
             obs = {'steps': [dec_step(s, st) for s, st in zip(v, case['steps'])], 'mutated': []}
         return snap(obs, unfloat(case.get('_raw')), case['tol'])
 
     def comparable(self, case, obs):
-        if not isinstance(obs, dict) or case['kind'] == 'mv':
+        if not isinstance(obs, dict):
             return obs
+        if case['kind'] == 'mv':
+            return {k: v for k, v in obs.items() if k not in MATRIX_KEYS}
         steps = case_steps(case)
         if case['kind'] == 'seq':
             obs = dict(obs)
@@ -958,6 +1309,14 @@ class Check(PropertyCheck):
         for c in cases:
             k = f"{c['kind']}/{c['stokes']}/{'x64' if c['x64'] else 'f32'}"
             d[k] = d.get(k, 0) + 1
+            if c.get('dense'):
+                k = f"dense-{c['dense']}/{c['kind']}"
+                d[k] = d.get(k, 0) + 1
+            if 'dd' in c:
+                aks = sorted({o.get('ak', 'jax') for st in (case_steps(c) if c['kind'] != 'mv' else [{'ops': c['ops']}])
+                              for o in ([st] if 'which' in st else st['ops']) if 'ak' in o or 'which' in st})
+                k = f"dtype/{'x64' if c['x64'] else 'x32'}/data-{c['dd']}/angles-{'+'.join(aks)}"
+                d[k] = d.get(k, 0) + 1
         return d
 
     def rule(self):
@@ -974,7 +1333,13 @@ class Check(PropertyCheck):
                 'Sequences: 2-5 chains / factory calls over a shared pool of rotation objects and angle operands (all 16 pairs of '
                 '2-chains over two objects, chain+factory and factory+factory on one NumPy operand, plus sampled).  Every chain / '
                 'factory / sequence is observed for purity (unreduced value and stored angles before and after reduce(), reduce() twice, '
-                'bits of every angle operand).  Distinct by canonical JSON of the case')
+                'bits of every angle operand).  dtype / magnitude ladder: x64 on/off x Stokes dtype f32/f64 x angle operand '
+                'kind (jax float32 / float64, NumPy float32 / float64, Python float) x |a| in decades 1e-6 .. 1e6 rad (float32-known '
+                'angles .. 1e3; thorough also 1e8): per rung a single R or R.T, a hwp or pol factory (thorough: all four) and a 2-3 '
+                'operand chain whose other rotation has its own kind and magnitude; exact (cos 2a, sin 2a) throughout, derived '
+                'tolerance.  Dense forms: as_matrix() (+ generic when overridden) of unreduced / reduced / transposed operators vs '
+                'the component-major NumPy Mueller matrix on every bare HWP / polariser, a quarter of the single rotations and '
+                'factories, and a fixed pseudo-random fraction of the chains and dtype cases.  Distinct by canonical JSON of the case')
 
     # ------------------------------------------------------------------------------------------
     def oracle(self, case, obs):
@@ -985,11 +1350,11 @@ class Check(PropertyCheck):
             return f'no observation: {o!r}'
         if kind == 'mv':
             d = case['ops'][0]
-            exp = np_expected([d], case['stokes'], case['shape'], case['x'])
+            exp = np_expected([d], case['stokes'], case['shape'], x_values(case))
             if not close_value(o['y'], exp, tol):
                 return f'{d["t"]}.mv(x) = {o["y"]} differs from its Mueller matrix applied to x = {exp}'
             if d['t'] == 'R':
-                expt = np_expected([dict(d, t='RT')], case['stokes'], case['shape'], case['x'])
+                expt = np_expected([dict(d, t='RT')], case['stokes'], case['shape'], x_values(case))
                 for k in ('t', 'inv'):
                     if not close_value(o[k], expt, tol):
                         return f'rotation .{"T" if k == "t" else "I"}.mv(x) = {o[k]} differs from the rotation by -a = {expt}'
@@ -1001,6 +1366,14 @@ class Check(PropertyCheck):
                 return f'{d["t"]}.mv(x) evaluated a second time = {o["y_again"]} differs from its Mueller matrix applied to x = {exp}'
             if o.get('mutated'):
                 return f'angle arrays modified in place by mv / .T / .I: {o["mutated"]}'
+            if case.get('dense'):
+                msg = self.dense_oracle(f'{d["t"]}', [d], o, case, exp, '')
+                if msg:
+                    return msg
+                ref = np_dense([d], case['stokes'], case['shape'])
+                if ref is not None and not close_matrix(o.get('tdense'), ref.T, tol):
+                    return (f'{d["t"]}.T.as_matrix() {("raised " + o["tdense_error"]) if o.get("tdense_error") else ""} is not the '
+                            f'transposed Mueller matrix (component-major {list(ref.T.shape)}): {matrix_diff(o.get("tdense"), ref.T)}')
             return None
         if kind == 'seq':
             res = o.get('steps') or []
@@ -1021,6 +1394,28 @@ class Check(PropertyCheck):
                     f'construction): {o["mutated"]}')
         return None
 
+    def dense_oracle(self, what, ops, o, case, exp, prefix):
+        """The dense forms of one operator: as_matrix() as resolved by its class, and (when that is an override) the
+        generic AbstractLinearOperator.as_matrix, are the Mueller matrix in component-major (pytree-leaf) order, and the
+        matrix applied to x is the value of the product on x."""
+        tol = case['tol']
+        ref = np_dense(ops, case['stokes'], case['shape'])
+        if ref is None:
+            return None
+        red = 'reduce().' if prefix else ''
+        for key, name in ((prefix + 'dense', f'{red}as_matrix()'), (prefix + 'gdense', f'AbstractLinearOperator.as_matrix({red[:-1] or "op"})')):
+            if key.endswith('gdense') and key not in o and not o.get(key + '_error'):
+                continue  # no override: the resolved method IS the generic one
+            if o.get(key + '_error'):
+                return f'{what}: {name} raised {o[key + "_error"]}'
+            if not close_matrix(o.get(key), ref, tol):
+                return (f'{what}: {name} is not the dense Mueller matrix of the product in component-major (pytree leaf) order, '
+                        f'shape {list(ref.shape)}: {matrix_diff(o.get(key), ref)}')
+        if exp is not None and not close_value(o.get(prefix + 'dense_x'), exp, tol):
+            return (f'{what}: {red}as_matrix() @ flatten(x) = {o.get(prefix + "dense_x")} differs from the product of the Mueller '
+                    f'matrices applied to x = {exp}')
+        return None
+
     def step_oracle(self, what, step, o, case):
         """The property on one chain / factory: value = product of the Mueller matrices, before and after
         reduction - where `after` means every evaluation made after a reduce() was called: of the reduced
@@ -1034,7 +1429,7 @@ class Check(PropertyCheck):
             eexp = o.get('expr')  # `@` may simplify on construction: only self-consistency of the structure
         elif not close_expr(o.get('expr'), eexp, tol):
             return f'{what}: built {brief(o.get("expr"))}, expected the product {brief(eexp)}'
-        exp = np_expected(ops, case['stokes'], case['shape'], case['x'])
+        exp = np_expected(ops, case['stokes'], case['shape'], x_values(case))
         if exp is not None:  # else not composable: values are outside the property's domain (purity is not)
             if not close_value(o['before'], exp, tol):
                 return f'{what}: mv(x) = {o["before"]} differs from the product of the Mueller matrices applied to x = {exp}'
@@ -1043,6 +1438,10 @@ class Check(PropertyCheck):
             if not close_value(o['after'], exp, tol):
                 return (f'{what}: after reduce() (-> {[e[:3] for e in o["reduced"]]}) mv(x) = {o["after"]} differs from the '
                         f'product of the Mueller matrices applied to x = {exp}')
+            if case.get('dense'):
+                msg = self.dense_oracle(what, ops, o, case, exp, '') or self.dense_oracle(what, ops, o, case, exp, 'r')
+                if msg:
+                    return msg
         if not close_expr(o.get('expr_again'), eexp, tol):
             return (f'{what}: after the reductions the UNREDUCED operator holds {brief(o.get("expr_again"))}; it was built as '
                     f'{brief(eexp)} (reduce() modified its operands)')
